@@ -68,6 +68,13 @@ def scenarios():
                 ('bystander.pn', 'fn pubf() -> i32\n{\n\treturn: 5\n}\n\nfn own() -> i32\n{\n\treturn: pubf()\n}\n'),
                 ('main.pn', user(['util.pn'], '\treturn: pubf()\n')), ('top.pn', user(['main.pn'], '\treturn: 1\n'))],
                 {'util.pn': 'accept', 'bystander.pn': 'accept', 'main.pn': 'accept', 'top.pn': 'accept'}))
+    scale = 'pub fn scale(x: i32, factor: i32) -> i32\n{\n\treturn: x * factor\n}\n'
+    out.append(('the parameter names of an imported function are no names of the importer: its own variables may have them',
+                [('scale.pn', scale), ('main.pn', 'import "scale.pn";\n\nfn main() -> i32\n{\n\tvar factor: i32 = 2;\n\tvar x: i32 = 3;\n\treturn: scale(x, factor)\n}\n\nfn twice(x: i32) -> i32\n{\n\treturn: scale(x, 2)\n}\n')],
+                {'scale.pn': 'accept', 'main.pn': 'accept'}))
+    out.append(('the parameter names of an imported function are no names of the importer: it cannot use them',
+                [('scale.pn', scale), ('main.pn', 'import "scale.pn";\n\nfn main() -> i32\n{\n\treturn: scale(1, 2) + factor\n}\n')],
+                {'scale.pn': 'accept', 'main.pn': 'reject'}))
     out.append(('mutual imports', [('a.pn', 'import "b.pn";\n\npub fn fa() -> i32\n{\n\treturn: 1\n}\n'), ('b.pn', 'import "a.pn";\n\npub fn fb() -> i32\n{\n\treturn: fa()\n}\n')],
                 {'a.pn': 'accept', 'b.pn': 'accept'}))
     return out
